@@ -110,7 +110,7 @@ func buildGeneric(ct c13Content, r *Rng) *jwt.GenericClaims {
 }
 
 func runC13(c *Ctx) {
-	c.Res.Rule = "equal contents built through random insertion orders of signing keys (plain, scoped, and scoped entries whose Key field was re-keyed to collide with another entry), account and export revocations, mappings, limit tiers and generic data (incl. a nested object); every third object first encoded with different standard fields and then edited back (equal content through a different history); each object encoded repeatedly in one process (the runtime re-randomises map iteration per loop) under GOMAXPROCS 1 and 16; all tokens whose issue time agrees must be byte-identical, across objects and across repetitions. Each object also goes through the Lean model's Encode. non-trivial = distinct contents."
+	c.Res.Rule = "equal contents built through random insertion orders of signing keys (plain, scoped, and scoped entries whose Key field was re-keyed to collide with another entry), account and export revocations, mappings, limit tiers and generic data (incl. a nested object); every tenth content carries a revocation list of 150-300 entries with a covering wildcard; every third object first encoded with different standard fields and then edited back (equal content through a different history); each object encoded repeatedly in one process (the runtime re-randomises map iteration per loop) under GOMAXPROCS 1 and 16; all tokens whose issue time agrees must be byte-identical, across objects and across repetitions. Each object also goes through the Lean model's Encode. non-trivial = distinct contents."
 	old := runtime.GOMAXPROCS(0)
 	defer runtime.GOMAXPROCS(old)
 	nContents := c.N(60, 3000)
@@ -142,6 +142,15 @@ func runC13(c *Ctx) {
 		for k := 0; k < c.R.Intn(6); k++ {
 			ct.Revs[[]string{"*", pubOf(kpN('U', k)), "x" + fmt.Sprint(k)}[c.R.Intn(3)]] = int64(c.R.Intn(1000))
 			ct.ExpRevs[pubOf(kpN('A', k))] = int64(c.R.Intn(1000))
+		}
+		if i%10 == 3 {
+			// a large revocation list with a wildcard entry that covers most of it (anything that caps, batches or
+			// compacts per call shows only beyond a size no small example reaches)
+			ct.Revs["*"] = 500
+			for k := 0; k < 150+c.R.Intn(150); k++ {
+				ct.Revs[fmt.Sprintf("UBIG%04d", k)] = int64(c.R.Intn(1000))
+			}
+			c.Count("large-revocation-list")
 		}
 		for k := 0; k < c.R.Intn(5); k++ {
 			ct.Maps = append(ct.Maps, fmt.Sprintf("m%d.sub", k))
